@@ -23,3 +23,10 @@ def run(ctx):
         run_c03_flags(ctx, "C07-d")
     except RoleLost as e:
         ctx.note("C07-d: spanning definition skipped — %s" % e)
+
+    # the formulas above are written in the scalar type's own operations; for the f64 instantiation those are decided by C20-a — restated
+    # here for exactly the operations this code calls: a `powf` / `sqrt` / `cos` of `impl MomTropFloat for f64` that is not std's breaks
+    # this property with every anchored line untouched
+    from .restate import restate_f64_primitives
+    from .c06 import find_sector
+    restate_f64_primitives(ctx, [lambda: find_sector(ctx, ctx.roles)], "the sector routine")
